@@ -141,6 +141,14 @@ def mon_C15(spec, st, t):
     cp = pickle.loads(pickle.dumps(tp))
     if getattr(cp, 'derived', None) != tp.derived:
         return ('copy-post-init-lost', 'pickled copy of a post_init task lacks the attribute post_init derives')
+    # post_init inherited from a mixin, and from a parent task type: it runs at construction and in every copy
+    for ty in (U.VPostMix, U.VPostSub):
+        ti = ty(x=V.build(spec))
+        want = ('derived', repr(ti.x))
+        if getattr(ti, 'derived', None) != want:
+            return ('post-init-not-run', f'{ty.__qualname__} inherits its post_init; the constructed task lacks what post_init derives')
+        if getattr(pickle.loads(pickle.dumps(ti)), 'derived', None) != want:
+            return ('copy-post-init-lost', f'pickled copy of a {ty.__qualname__} (inherited post_init) lacks the attribute post_init derives')
     # a task type whose post_init canonicalises its own parameter (strings lower-cased, tuples sorted)
     tr = U.VRewrite(x=V.build(spec))
     cr = pickle.loads(pickle.dumps(tr))
@@ -511,6 +519,12 @@ def stage_listing(report, tier, rng, dist, prop='C09'):
                 if not any(t == u for u in uniq):
                     uniq.append(t)
             lab.run_tasks(uniq, disable_progress=True, disable_top=True)
+            # equal tasks spelt differently are one task for == and hash but have entries (keys) of their own: each is stored by a
+            # call of its own, and each entry is listed
+            twins = [U.V2(x=1), U.V2(x=1.0), U.V2(x=True), U.V2(x={'a': 1, 'b': (2, 3)}), U.V2(x={'b': (2, 3), 'a': 1})]
+            for tw in twins:
+                lab.run_tasks([tw], disable_progress=True, disable_top=True)
+            twin_keys = {tw.cache_key for tw in twins}
             keys = sorted(os.listdir(storage))
             keys = [k for k in keys if os.path.isdir(os.path.join(storage, k))]
             salted = []
@@ -551,9 +565,14 @@ def stage_listing(report, tier, rng, dist, prop='C09'):
             defs.append(f'Definition store_{b} : list entry := {g_list(entries)}.')
             queries = [[ty] for ty in types] + [[U.V, U.VV], [U.VV, U.V], [U.V, U.V], [U.V2, U2.V2, PD.V2, PO.V2], [U.VJ, U.V], list(types), list(reversed(types))]
             queries += [rng.sample(types, rng.randint(1, 4)) for _ in range(4)]
+            queries += [[U.VN], [U.VN, U.V2], [U.V2, U.VN]]          # a task type that is not cached at all lists nothing, and spoils nothing
             for q in queries:
                 try:
                     got = lab.cached_tasks(q)
+                    if U.V2 in q and not twin_keys <= {g.cache_key for g in got}:
+                        report.violation(f'{prop}:stored-not-listed', f'cached_tasks({[ty.__qualname__ for ty in q]}) does not list every entry stored for V2: '
+                                                                      f'{len(twin_keys - {g.cache_key for g in got})} of the {len(twin_keys)} entries of equal tasks spelt differently '
+                                                                      '(1 / 1.0 / True, dict entries in another order) are missing', dict(level='store', stage='listing', storage_batch=b))
                     obs = []
                     for g in got:
                         rm = g.result_meta
@@ -562,10 +581,13 @@ def stage_listing(report, tier, rng, dist, prop='C09'):
                         obs.append(f'({V.g_value_py(g)}, {tokens.setdefault(tk, len(tokens))})')
                     got_term = f'(Some {g_list(obs)})'
                     dist['listing_listed'] += len(got)
-                except BaseException:   # noqa
+                except BaseException as e:   # noqa
                     got_term = 'None'
                     dist['listing_raised'] += 1
-                terms.append('{| lc_types := %s; lc_store := store_%d; lc_got := %s |}' % (g_list([tt(ty) for ty in q]), b, got_term))
+                    if b % 4 not in (2, 3):
+                        report.violation(f'{prop}:listing-raised', f'cached_tasks({[ty.__qualname__ for ty in q]}) raised {e!r} on a storage in which every entry is either '
+                                                                   'well-formed or must be passed over (other cache class, other type)', dict(level='store', stage='listing', storage_batch=b))
+                terms.append('{| lc_types := %s; lc_store := store_%d; lc_got := %s |}' % (g_list([tt(ty) for ty in q if hasattr(ty._lt.cache, 'KEY_PREFIX')]), b, got_term))   # (a NullCache type finds nothing under any key)
                 kept.append(dict(storage_batch=b, query=[f'{ty.__module__}.{ty.__qualname__}' for ty in q], salted=salted))
         dist['listing_queries'] = len(terms)
         bad = coq_failing(f'corr_{prop}_listing', imports + '\n'.join(defs) + '\n', terms, 'check_lcase deser_mode_src env2')
